@@ -1415,7 +1415,8 @@ impl DataType {
     /// filtered by the predicate `Value`
     fn filter_by_value(&self, predicate: &Value) -> DataType {
         match predicate {
-            value::Value::Boolean(b) if !*b.deref() => self.try_empty().unwrap(),
+            // Some types have no empty type: they are left as they are
+            value::Value::Boolean(b) if !*b.deref() => self.try_empty().unwrap_or(self.clone()),
             _ => self.clone(),
         }
     }
